@@ -421,12 +421,23 @@ def case_grouped(ctx, i):
     chosen = [pool[int(rng.integers(len(pool)))] for _ in range(n)]
     if homog:
         chosen = [chosen[0]] * n
+    native = False
+    if not homog and rng.random() < 0.3:
+        # different site types that natively carry an equal ChargeInfo (no set_common_charges needed): fermions next to bosons
+        cons = str(rng.choice(['N', 'parity']))
+        fam = [('FermionSite', dict(conserve=cons)), ('BosonSite', dict(Nmax=int(rng.integers(1, 3)), conserve=cons))]
+        chosen = [fam[int(rng.integers(2))] for _ in range(n)]
+        if len(set(c for c, _ in chosen)) == 1:
+            chosen[0] = fam[1] if chosen[0][0] == 'FermionSite' else fam[0]
+        native = True
     sites = [make(c, k) for c, k in chosen]
     policy = str(rng.choice(['same', 'drop', 'independent']))
     case = {'part': 'grouped', 'sites': [[c, k] for c, k in chosen], 'charges': policy}
     try:
         if homog:
             sites = [sites[0]] * n
+        elif native and all(s_.leg.chinfo == sites[0].leg.chinfo for s_ in sites):
+            ctx.count('grouped.native_common_chinfo')
         else:
             # heterogeneous sites need a common ChargeInfo first
             S.set_common_charges(sites, new_charges=str(rng.choice(['same', 'independent', 'drop'])))
@@ -493,6 +504,16 @@ def case_grouped(ctx, i):
     exp[np.ix_(pm, pm)] = JW
     if np.linalg.norm(g.get_op('JW').to_ndarray() - exp) > 1e-12:
         ctx.violation('GroupedSite:JW-not-product', '', case)
+    # if the grouped site claims a rule "charge -> Jordan-Wigner sign", the rule has to reproduce its JW operator
+    if getattr(g, 'charge_to_JW_parity', None) is not None:
+        ctx.count('grouped.charge_to_JW_checked')
+        try:
+            signs = np.asarray(g.charge_to_JW_signs(g.leg.to_qflat()))
+            if not np.allclose(signs, np.real(np.diag(g.get_op('JW').to_ndarray()))):
+                ctx.violation('GroupedSite:charge_to_JW_signs-differs-from-JW', 'rule %r vs diag(JW) %r' %
+                              (signs.tolist(), np.real(np.diag(g.get_op('JW').to_ndarray())).tolist()), case)
+        except Exception as e:
+            ctx.violation('GroupedSite:charge_to_JW_signs-raises-%s' % type(e).__name__, traceback.format_exc()[-400:], case)
     ctx.sig(('grouped', repr(chosen), policy), nontrivial=not homog)
     if i % 40 == 0:
         ctx.sample(case)
